@@ -321,7 +321,7 @@ static int sweep_c11(int argc, char **argv) {
     size_t backing = mtu + 32768;
     uint8_t *buf = malloc(backing);
     memset(buf, 0x80, backing);
-    unsigned long long cases = 0, nontriv = 0;
+    unsigned long long cases = 0, nontriv = 0, clk_cases = 0;
     const uint16_t GEN = 0x0102, XID = 0x0a0b;
     static const char *vname[] = {"empty", "same-seq", "different-seq", "other-generation", "other-mapper",
                                   "hole-then-same-seq", "hole-then-different-seq", "full-table-mapper-last-different-seq",
@@ -346,8 +346,14 @@ static int sweep_c11(int argc, char **argv) {
                 break;
         }
         int changed = (variant == 2 || variant == 6 || variant == 7);
+        /* the classification is a function of (frame, table, own address): the clock moves on between the moment the
+         * sessions were recorded and the Discover being classified, no expiry tick in between */
+        static const uint64_t clk_adv[] = {0, 59000, 1000, 1000, 1000, 3539000ull, 1ull << 33};
+        uint64_t clk_total = 0;
+        for (int ci = 0; ci < 7; ci++) {
+        vp_now_ms += clk_adv[ci]; clk_total += clk_adv[ci];
         for (int n = 1; n <= nmax; n++) {
-            if (variant >= 5 && !(n <= 3 || n == 7 || n == 100 || n == nmax)) continue;
+            if ((variant >= 5 || ci > 0) && !(n <= 3 || n == 7 || n == 100 || n == nmax)) continue;
             for (int p = -1; p < n; p++) {
                 vp_fill_stream(buf, mtu, fseed + 13);
                 size_t o = mk_base(buf, BCAST, MX, 0, 0, BCAST, MX, XID);
@@ -368,9 +374,12 @@ static int sweep_c11(int argc, char **argv) {
                              p >= 0 ? (r == c11_expect(0, changed) ? "own-address-in-list-not-recognised" : "wrong-event")
                                     : (r == c11_expect(1, changed) ? "absent-address-recognised" : "wrong-event"),
                              vname[variant]);
-                    viol(key, "count=%d position=%d table=%s: derive_session_event=%d expected %d", n, p, vname[variant], r, e);
+                    viol(key, "count=%d position=%d table=%s clock %llu ms after the sessions were recorded: derive_session_event=%d expected %d",
+                         n, p, vname[variant], (unsigned long long)clk_total, r, e);
                 } else if (p >= 0) nontriv++;
+                if (ci > 0) clk_cases++;
             }
+        }
         }
         session_table_destroy(tab);
     }
@@ -395,6 +404,7 @@ static int sweep_c11(int argc, char **argv) {
         }
     }
     stat_ull("cases", cases);
+    stat_ull("clock_advanced_cases", clk_cases);
     stat_ull("distinct_nontrivial", nontriv);
     stat_ull("violations", n_viol);
     printf("SAMPLE Discover count=n (1..%d), own address at list position p (0..n-1 or absent), table variant in "
